@@ -25,6 +25,9 @@ type FlowCase struct {
 	// extras (rapid part): sibling commands and a command below the addressed one, all with hooks that must never run
 	Siblings bool `json:"siblings,omitempty"`
 	Below    bool `json:"below,omitempty"`
+	// Twice: the same application object is Run a second time with the same vector; the second invocation is a valid
+	// invocation like the first and must show the same behaviour
+	Twice bool `json:"twice,omitempty"`
 }
 
 type panicMarker struct{ idx int }
@@ -38,10 +41,13 @@ func exitCodeOf(idx int) int {
 	return 100 + idx
 }
 
-// flowRun executes the plan against the library.
+// flowRun executes the plan against the library (and, for Twice, a second time on the same application object: the
+// results of the second run are returned then, after the first run was found to be as the model says).
 func flowRun(c *FlowCase) (log []string, end string, strayPanic interface{}) {
 	d := c.Depth
 	var out Outcome
+	var app *cli.Cli
+	var argv []string
 	markers := map[int]*panicMarker{}
 	mk := func(name string, b int, idx int) func() {
 		switch b {
@@ -59,9 +65,9 @@ func flowRun(c *FlowCase) (log []string, end string, strayPanic interface{}) {
 	}
 	never := func(name string) func() { return func() { log = append(log, "NEVER:"+name) } }
 	WithSwapExit(&out, func(code int) { log = append(log, fmt.Sprintf("EXIT(%d)", code)) }, func() {
-		app := cli.App("app", "")
+		app = cli.App("app", "")
 		app.ErrorHandling = flag.ContinueOnError
-		argv := []string{"app"}
+		argv = []string{"app"}
 		var conf func(cmd *cli.Cmd, lvl int)
 		conf = func(cmd *cli.Cmd, lvl int) {
 			cmd.Before = mk(fmt.Sprintf("B%d", lvl), c.Beh[lvl], lvl)
@@ -89,18 +95,37 @@ func flowRun(c *FlowCase) (log []string, end string, strayPanic interface{}) {
 		err := app.Run(argv)
 		end = fmt.Sprintf("return(%v)", err)
 	})
-	switch {
-	case out.Exit != nil:
-		end = fmt.Sprintf("exit(%d)x%d", *out.Exit, out.Exits)
-	case out.PanicVal != nil:
-		if m, ok := out.PanicVal.(*panicMarker); ok && markers[m.idx] == m {
-			end = fmt.Sprintf("panic(P%d)", m.idx)
-		} else {
-			end = "panic(other)"
-			strayPanic = out.PanicVal
+	if c.Twice {
+		firstLog, firstEnd := log, flowEnd(&out, end, markers)
+		ml, me := flowModel(c)
+		if c.Beh[d+1] != HAbsent && (!reflect.DeepEqual(firstLog, ml) || firstEnd != me) {
+			return firstLog, firstEnd, nil // the first run already deviates: report that one
 		}
+		log, end = nil, ""
+		out = Outcome{}
+		WithSwapExit(&out, func(code int) { log = append(log, fmt.Sprintf("EXIT(%d)", code)) }, func() {
+			err := app.Run(argv)
+			end = fmt.Sprintf("return(%v)", err)
+		})
+	}
+	end = flowEnd(&out, end, markers)
+	if end == "panic(other)" {
+		strayPanic = out.PanicVal
 	}
 	return
+}
+
+func flowEnd(out *Outcome, end string, markers map[int]*panicMarker) string {
+	switch {
+	case out.Exit != nil:
+		return fmt.Sprintf("exit(%d)x%d", *out.Exit, out.Exits)
+	case out.PanicVal != nil:
+		if m, ok := out.PanicVal.(*panicMarker); ok && markers[m.idx] == m {
+			return fmt.Sprintf("panic(P%d)", m.idx)
+		}
+		return "panic(other)"
+	}
+	return end
 }
 
 // flowModel is the reference model of the statement.
@@ -189,8 +214,8 @@ func CheckC05(c *FlowCase) (v *Violation, claimed bool, faulty bool) {
 	}
 	ml, me := flowModel(c)
 	if !reflect.DeepEqual(gl, ml) || ge != me {
-		return Violf("fault plan depth=%d beh=%v (B0..Bd, Action, F0..Fd; 0 absent 1 returns 2 panics 3 exits) siblings=%v below=%v: library ran %v and ended with %s; the contract requires %v and %s",
-			d, c.Beh, c.Siblings, c.Below, gl, ge, ml, me), true, faulty
+		return Violf("fault plan depth=%d beh=%v (B0..Bd, Action, F0..Fd; 0 absent 1 returns 2 panics 3 exits) siblings=%v below=%v second-run-on-same-app=%v: library ran %v and ended with %s; the contract requires %v and %s",
+			d, c.Beh, c.Siblings, c.Below, c.Twice, gl, ge, ml, me), true, faulty
 	}
 	return nil, true, faulty
 }
